@@ -660,6 +660,10 @@ impl ImageHandler for KittyImageHandler {
             ?img,
             "[KittyImageHandler.draw]"
         );
+        if img.width() == 0 || img.height() == 0 {
+            // nothing to transmit, placement would refer to an image that was never sent
+            return Ok(());
+        }
         let img_id = kitty_image_id(img);
 
         // q   - suppress response from the terminal 1 - OK only, 2 - All.
